@@ -39,18 +39,26 @@ def gen(rng, tier):
         Q = [c for q in base['Q'] for c in copies[q]]
         delta = [[c, a, rng.choice(copies[t])] for (q, a, t) in base['delta'] for c in copies[q]]
         ds.append({'Q': Q, 'Sigma': list(sigma), 'delta': delta, 'q0': copies[base['q0']][0], 'F': [c for q in base['F'] for c in copies[q]]})
-    return [{'D': d, 'log': i % 2 == 1} for i, d in enumerate(ds)]
+    cases = [{'D': d, 'log': i % 2 == 1} for i, d in enumerate(ds)]
+    # the same object is minimised, modified in place (accepting set, transitions) and minimised again
+    for i in range(100 if quick else 1500):
+        sigma = rng.choice(['a', 'ab'])
+        k = rng.randint(2, 5)
+        d1, d2 = G.random_dfa(rng, k, sigma, pfinal=0.5), G.random_dfa(rng, k, sigma, pfinal=0.5)
+        if rng.random() < 0.5:
+            d2 = dict(d1, F=d2['F'])
+        cases.append({'D': d1, 'log': False, 'then': {'D': d2, 'log': False}})
+    return cases
 
 
 def _out(r, ok):
     return conv.dfa_case(r[1]) if ok(r) else None
 
 
-def observe(c):
+def _observe1(c, D):
     from gambatools.dfa_algorithms import dfa_minimize, dfa_quotient, dfa_hopfcroft
     from gambatools.global_settings import GambaTools
     from implutil import safe, ok, captured_stdout
-    D = conv.dfa_obj(c['D'])
     before = conv.dfa_case(D)
     o = {}
     o['min'] = _out(safe(dfa_minimize, D), ok)
@@ -61,6 +69,19 @@ def observe(c):
     GambaTools.enable_logging = False
     o['hop'] = _out(r, ok)
     o['unchanged'] = conv.dfa_case(D) == before
+    return o
+
+
+def observe(c):
+    D = conv.dfa_obj(c['D'])
+    o = _observe1(c, D)
+    if c.get('then'):
+        d2 = c['then']['D']
+        D.delta.clear()
+        D.delta.update({(q, a): t for q, a, t in d2['delta']})
+        D.F.clear()
+        D.F.update(d2['F'])
+        o['then'] = _observe1(c['then'], D)
     return o
 
 
@@ -86,6 +107,12 @@ def _dfa_sets(d, st, sy):
 
 
 def encode(c, o):
+    if c.get('then'):
+        return 'worst_code [%s; %s]' % (_encode1(c, o), _encode1(c['then'], o['then']))
+    return _encode1(c, o)
+
+
+def _encode1(c, o):
     d = c['D']
     st, sy = L.state_names(d), L.symbol_names(d)
     return 'judge_C04 %s %s %s %s %s' % (L.dfa(d, st, sy), _dfa_sets(o['min'], st, sy), _dfa_sets(o['quo'], st, sy), _dfa_sets(o['hop'], st, sy), L.boolean(o['unchanged']))
@@ -97,7 +124,7 @@ def explain(c):
 
 
 def key(c):
-    return conv.dfa_text(c['D'])
+    return conv.dfa_text(c['D']) + ('\n=then=>\n' + key(c['then']) if c.get('then') else '')
 
 
 def nontrivial(c, o):
